@@ -529,9 +529,16 @@ func (x *execCtx) execUpdate(s *updateStmt, outer *env) (*result, error) {
 	}
 	var changes []change
 	en := &env{parent: outer}
-	for _, sl := range t.slots {
+	scan := t.slots
+	if s.lookup != nil {
+		var err error
+		if scan, err = x.lookupSlots(t, s.lookup, outer); err != nil {
+			return nil, err
+		}
+	}
+	for _, sl := range scan {
 		old := sl.visible(x.tx)
-		if old == nil {
+		if old == nil || sl.dead {
 			continue
 		}
 		base := make([]Value, s.width)
@@ -539,7 +546,7 @@ func (x *execCtx) execUpdate(s *updateStmt, outer *env) (*result, error) {
 		rows := [][]Value{base}
 		var err error
 		for _, it := range s.from {
-			if rows, err = x.joinFrom(rows, it, outer); err != nil {
+			if rows, err = x.joinFrom(rows, it, outer, nil); err != nil {
 				return nil, err
 			}
 		}
@@ -604,9 +611,16 @@ func (x *execCtx) execDelete(s *deleteStmt, outer *env) (*result, error) {
 	}
 	var victims []victim
 	en := &env{parent: outer}
-	for _, sl := range t.slots {
+	scan := t.slots
+	if s.lookup != nil {
+		var err error
+		if scan, err = x.lookupSlots(t, s.lookup, outer); err != nil {
+			return nil, err
+		}
+	}
+	for _, sl := range scan {
 		old := sl.visible(x.tx)
-		if old == nil {
+		if old == nil || sl.dead {
 			continue
 		}
 		if s.where != nil {
